@@ -85,6 +85,8 @@ def gen_repo(rng, n_targets=(3, 12), n_pkgs=(1, 4), allow_dir=True, allow_filegr
                 if kind == "genrule" and spec.get("defs") and rng.chance(0.25):
                     t["srcs"].append("t://defs:gen")                 # the subincluded target as an ordinary dependency
             if kind == "filegroup":
+                if rng.chance(0.25) and any(x.startswith("f:") for x in t["srcs"]):
+                    t["binary"] = True   # a binary filegroup COPIES its source files and marks them executable
                 if not t["srcs"]:
                     (dp, dt) = rng.choice(all_t)
                     t["srcs"].append("t:" + label(dp, dt["name"]))
